@@ -962,6 +962,9 @@ def _saves_row(st, proxarr, W):
     if isinstance(v, Arr):
         return v is proxarr
     at = _one(v) if isinstance(v, Rat) else None
+    if at is not None and at.name == 'arr' and at.args[0] == proxarr.name and st.arr is not proxarr and not isinstance(st.idx, str) and \
+            len(st.idx) == 1:
+        return True             # the whole line at once: `img_distance[row] = line_proximity`
     return at is not None and at.name in ('read', 'cell?') and at.args[0] == proxarr.name and st.arr is not proxarr and \
         not isinstance(st.idx, str) and len(st.idx) == 2
 
